@@ -1126,9 +1126,13 @@ class DirectorHandler:
             # Make all failed steps pending again for rerun.
             for step in self.workflow.steps(StepState.FAILED, include_detached=True):
                 self.workflow.mark_step_pending(step)
+        # The previous build phase may have ended draining, which the new one must not inherit.
+        # This is reset before the watcher applies the observed changes:
+        # a hash job that fails while doing so drains the scheduler again (see
+        # `Executor._run_hash_job`), and that must survive until the build phase reports it.
+        self.scheduler.draining = False
         self.watcher.end_watching.set()
         await wait_for_any_event(self.watcher.done_watching, self.stop_event)
-        self.scheduler.draining = False
         self.builder.resume.set()
 
     @allow_rpc
